@@ -105,7 +105,7 @@ CHECKS = {
     ),
     "C02": dict(
         level="model_checking",
-        clauses=GEN_CLAUSES_SPEC,
+        clauses=GEN_CLAUSES_SPEC | {"errclass"},
         phases=dict(quick=[dict(kind="proofs", canary=False), dict(kind="verbnames"), dict(kind="argspace", verbs=["slices"]), dict(kind="argspace", verbs=["arrange", "mutate"], amax=2), dict(profile="core2"), dict(profile="imm3", opts=dict(pool=True)), dict(profile="subq4"), dict(profile="wins3"), dict(profile="tall2")],
                     thorough=[dict(profile="subq5"), dict(kind="argspace", verbs=["slices"], ns=[0, 1, 2, 3, 6], ks=[0, 1, 2, 4, 7], sizes=[0, 1, 4, 6]), dict(kind="argspace", verbs=["arrange", "mutate"], amax=3), dict(kind="proofs", canary=False), dict(kind="verbnames", cols=["a", "b", "c", "x"], keys=["a", "b", "c", "x", "z"], vals=["a", "b", "c", "x", "y"]), dict(profile="core2"), dict(profile="core3"), dict(profile="imm4", opts=dict(pool=True)), dict(profile="wins4"), dict(profile="tall2"), dict(profile="reroot3")]),
     ),
@@ -189,8 +189,8 @@ CHECKS = {
     "C14": dict(
         level="model_checking",
         clauses={"errclass", "accept", "export-error"}, export_error_backends={"polars"},
-        phases=dict(quick=[dict(profile="err2"), dict(profile="join2"), dict(profile="union2")],
-                    thorough=[dict(profile="err3"), dict(profile="join2"), dict(profile="union3")]),
+        phases=dict(quick=[dict(kind="verbnames"), dict(profile="err2"), dict(profile="join2"), dict(profile="union2")],
+                    thorough=[dict(kind="verbnames", cols=["a", "b", "c", "x"], keys=["a", "b", "c", "x", "z"], vals=["a", "b", "c", "x", "y"]), dict(profile="err3"), dict(profile="join2"), dict(profile="union3")]),
     ),
     "C15": dict(
         level="model_checking",
@@ -201,7 +201,8 @@ CHECKS = {
     "C16": dict(
         level="model_checking",
         clauses=GEN_CLAUSES_SPEC | {"errclass", "getname"},
-        phases=dict(quick=[dict(profile="reroot3"), dict(profile="rerootagg5")], thorough=[dict(profile="reroot3"), dict(profile="reroot4"), dict(profile="rerootagg5")]),
+        phases=dict(quick=[dict(profile="reroot3"), dict(profile="rerootagg5"), dict(profile="hidsub4")],
+                    thorough=[dict(profile="reroot3"), dict(profile="reroot4"), dict(profile="rerootagg5"), dict(profile="hidsub4")]),
     ),
     "C10": dict(
         level="model_checking",
@@ -214,7 +215,7 @@ CHECKS = {
     "C11": dict(
         level="model_checking",
         clauses={"meta", "trace-names", "trace-group", "trace-export-columns", "trace-unknown-input", "trace-sql-limit",
-                 "trace-sql-filtered", "trace-sql-grouped", "trace-dtype", "trace-export-dtype", "names"},
+                 "trace-sql-filtered", "trace-sql-grouped", "trace-dtype", "trace-export-dtype", "names", "errclass", "accept"},
         phases=dict(quick=[dict(kind="verbnames"), dict(kind="joinnames"), dict(profile="core2"), dict(profile="join2"), dict(profile="union2"), dict(profile="hidsub4"),
                            dict(kind="tracemeta", profiles=[("core2", 400), ("join2", 300), ("agg3", 300)])],
                     thorough=[dict(profile="hidsub4"), dict(kind="verbnames", cols=["a", "b", "c", "x"], keys=["a", "b", "c", "x", "z"], vals=["a", "b", "c", "x", "y"]),
